@@ -168,3 +168,16 @@ Definition anti_join_ok (j : option (jbx * jbx)) (supplied : bool) : bool :=
   | None => negb supplied
   | Some (on, wh) => supplied && jbx_eqb on canon_on && jbx_eqb wh canon_wh
   end.
+
+(* ------------------------------------------------------------------------------------ *)
+(* which branch of _join_new_table_to_df_concat_with_tf_sql serves a TF column of an ad-hoc record:
+   its own tf_ column, else the cached __splink__df_tf_<col> table (registered or computed), else
+   select distinct from the cached __splink__df_concat_with_tf, else NULL.  translators/c10_sql.py
+   reads the branch off the emitted SQL for every cache state. *)
+Inductive route_kind := RSupplied | RRegistered | RDistinct | RNone.
+Definition route_kind_eqb (a b : route_kind) : bool :=
+  match a, b with RSupplied, RSupplied | RRegistered, RRegistered | RDistinct, RDistinct | RNone, RNone => true | _, _ => false end.
+Definition route_priority (supplied tf_table_cached concat_cached : bool) : route_kind :=
+  if supplied then RSupplied else if tf_table_cached then RRegistered else if concat_cached then RDistinct else RNone.
+Definition route_of {V : Type} (k : route_kind) (tbl : list (V * Q)) : tf_route V :=
+  match k with RSupplied => Supplied V | RRegistered => Registered V tbl | RDistinct => DistinctFromConcat V | RNone => NoSource V end.
